@@ -558,7 +558,9 @@ func (r *runner) viaReturn(c *cell, seq bool) (fs []finding, log []string) {
 			}
 		}
 	}
-	if seq {
+	if seq || c.mode == mUnjudged {
+		// (no Eval on a cell that is not judged: the stored value may be a reinterpretation that
+		// nothing should look into)
 		return
 	}
 	// Eval of the stub: the result converted back
@@ -573,10 +575,6 @@ func (r *runner) viaReturn(c *cell, seq bool) (fs []finding, log []string) {
 	}
 	if len(res) != 1 {
 		fs = append(fs, finding{"Eval(Return)", "wrong-arity", fmt.Sprintf("Eval returned %d results", len(res))})
-		return
-	}
-	if c.mode == mUnjudged {
-		log = append(log, "Eval(Return): "+shallow(res[0]))
 		return
 	}
 	log = append(log, "Eval(Return): "+describe(res[0]))
@@ -723,6 +721,123 @@ func (r *runner) runCell(c *cell, only string) (fs []finding, log []string) {
 	return
 }
 
+// ---------------------------------------------------------------------------------------------
+// two results / two parameters: values are converted by position
+
+type pairCase struct {
+	label  string
+	v1, v2 interface{}
+	want1  []byte // nil: the nil slice is expected
+	want2  error  // nil: "err == nil" is expected
+}
+
+func pairCases() []pairCase {
+	b1 := []byte("ab")
+	pe := &c09t.PErr{Code: 5}
+	return []pairCase{
+		{"(nil,nil)", nil, nil, nil, nil},
+		{"(nil,&PErr{5})", nil, pe, nil, pe},
+		{"([]byte(\"ab\"),nil)", b1, nil, b1, nil},
+		{"([]byte(\"ab\"),VErr{3})", b1, c09t.VErr{Code: 3}, b1, c09t.VErr{Code: 3}},
+		{"([]byte(nil),(*PErr)(nil))", []byte(nil), (*c09t.PErr)(nil), nil, (*c09t.PErr)(nil)},
+	}
+}
+
+func (pc *pairCase) check(r1 []byte, r2 error) string {
+	if pc.want1 == nil && r1 != nil || pc.want1 != nil && !same(r1, pc.want1) {
+		return "first-result-wrong"
+	}
+	if pc.want2 == nil && r2 != nil || pc.want2 != nil && !same(r2, pc.want2) {
+		return "second-result-wrong"
+	}
+	return ""
+}
+
+func (r *runner) runPair(pc *pairCase, only string) (fs []finding) {
+	note, _ := json.Marshal(map[string]string{"__key": "kind=pair class=by-position value=" + pc.label, "kind": "pair", "class": "by-position", "label": pc.label})
+	r.c.Note(string(note))
+	reset := func(b *mocker.Builder) {
+		vk.Try(func() { b.Reset() })
+		r.ops++
+		var n int
+		var b0 []byte
+		_, p := vk.Try(func() { b0, _ = c09t.RPair(0); n = c09t.PPair(nil, nil) })
+		if p || n != -1 || string(b0) != "orig" {
+			vk.Fatalf("after Reset (pair %s) the originals are not back", pc.label)
+		}
+	}
+	for _, via := range []string{"Return", "Returns"} {
+		if only != "" && only != via {
+			continue
+		}
+		func() {
+			b := mocker.Create()
+			defer reset(b)
+			msg, p := vk.Try(func() {
+				if via == "Return" {
+					b.Func(c09t.RPair).Return(pc.v1, pc.v2)
+				} else {
+					b.Func(c09t.RPair).Returns([]interface{}{pc.v1, pc.v2}, []interface{}{pc.v1, pc.v2})
+				}
+			})
+			r.ops += 3
+			if p {
+				r.judged++
+				fs = append(fs, finding{via, "panic-at-config:" + short(msg), via + " panicked: " + short(msg)})
+				return
+			}
+			n := 1
+			if via == "Returns" {
+				n = 2
+			}
+			for i := 0; i < n; i++ {
+				var r1 []byte
+				var r2 error
+				msg, p := vk.Try(func() { r1, r2 = c09t.RPair(0) })
+				r.ops++
+				r.judged++
+				if p {
+					fs = append(fs, finding{via, "panic-at-call:" + short(msg), "the call panicked: " + short(msg)})
+					return
+				}
+				if bad := pc.check(r1, r2); bad != "" {
+					fs = append(fs, finding{via, bad, fmt.Sprintf("call %d delivered (%s, %s)", i+1, describe(r1), describe(r2))})
+					return
+				}
+			}
+		}()
+	}
+	if only == "" || only == "When" {
+		func() {
+			b := mocker.Create()
+			defer reset(b)
+			msg, p := vk.Try(func() { b.Func(c09t.PPair).Return(stubDefault).When(pc.v1, pc.v2).Return(stubClause) })
+			r.ops += 5
+			if p {
+				r.judged++
+				fs = append(fs, finding{"When", "panic-at-config:" + short(msg), "When panicked: " + short(msg)})
+				return
+			}
+			var n, m int
+			msg, p = vk.Try(func() {
+				n = c09t.PPair(pc.want1, pc.want2)
+				m = c09t.PPair([]byte("zz"), &c09t.PErr{Code: 6})
+			})
+			r.ops += 2
+			r.judged += 2
+			switch {
+			case p:
+				fs = append(fs, finding{"When", "panic-at-call:" + short(msg), "a call panicked: " + short(msg)})
+			case n != stubClause:
+				fs = append(fs, finding{"When", "equal-arguments-not-selected", fmt.Sprintf("the call with equal arguments returned %d", n)})
+			case m != stubDefault:
+				fs = append(fs, finding{"When", "different-arguments-selected", fmt.Sprintf("the call with different arguments returned %d", m)})
+			}
+		}()
+	}
+	return
+}
+
 func key(c *cell, f finding) string {
 	return fmt.Sprintf("kind=%s class=%s value=%s via=%s outcome=%s", c.kind.name, c.class, c.label, f.via, f.outcome)
 }
@@ -753,6 +868,24 @@ func Run(c *vk.Ctx) {
 	if c.Replay != "" {
 		var rc Case
 		c.LoadReplay(&rc)
+		if rc.Kind == "pair" {
+			for _, pc := range pairCases() {
+				if pc.label == rc.Label {
+					fs := r.runPair(&pc, rc.Via)
+					fmt.Printf("replay kind=pair value=%s via=%s\n", rc.Label, rc.Via)
+					for _, f := range fs {
+						fmt.Printf("result: %s via %s — %s\n", f.outcome, f.via, f.detail)
+						c.Violate("replay "+f.via, f.detail, rc)
+					}
+					if len(fs) == 0 {
+						fmt.Println("result: conforms")
+					}
+					c.Finish()
+					return
+				}
+			}
+			vk.Fatalf("unknown pair case %s", rc.Label)
+		}
 		for _, cl := range cs {
 			if cl.kind.name == rc.Kind && cl.class == rc.Class && cl.label == rc.Label {
 				fs, log := r.runCell(cl, rc.Via)
@@ -808,7 +941,11 @@ func Run(c *vk.Ctx) {
 		}
 		c.Res.Evaluations += r.judged - before
 		nChecks += r.judged - before
-		c.Res.States += 5 // Return, Eval(Return), Returns, When, Eval(When)
+		if cl.mode == mReject {
+			c.Res.States += 3 // Return, Returns, When
+		} else {
+			c.Res.States += 5 // Return, Eval(Return), Returns, When, Eval(When)
+		}
 		if cl.mode == mDeliver {
 			nDeliver++
 		} else {
@@ -825,6 +962,32 @@ func Run(c *vk.Ctx) {
 				exp = "has another size than the declared type and must be rejected at configuration time"
 			}
 			c.Violate(key(cl, f), fmt.Sprintf("%s %s: supplied %s %s; via %s: %s", cl.kind.name, cl.class, cl.label, exp, f.via, f.detail), cc)
+		}
+	}
+	pcs := pairCases()
+	for i := range pcs {
+		pc := &pcs[i]
+		if !c.Mine(int64(len(cs) + i)) {
+			continue
+		}
+		before, opsBefore := r.judged, r.ops
+		fs := r.runPair(pc, "")
+		c.Res.Traces += 3
+		c.Res.Transitions += r.ops - opsBefore
+		c.Res.Evaluations += r.judged - before
+		nChecks += r.judged - before
+		c.Res.States += 3
+		nDeliver++
+		perClass["by-position"]++
+		cs0 := Case{Kind: "pair", Class: "by-position", Label: pc.label, Text: "([]byte, error) results/parameters, supplied " + pc.label}
+		if len(fs) == 0 {
+			c.Distinct("pair/" + pc.label)
+		}
+		for _, f := range fs {
+			cc := cs0
+			cc.Via = f.via
+			c.Violate(fmt.Sprintf("kind=pair class=by-position value=%s via=%s outcome=%s", pc.label, f.via, f.outcome),
+				fmt.Sprintf("([]byte, error) supplied %s must be delivered position by position as declared; via %s: %s", pc.label, f.via, f.detail), cc)
 		}
 	}
 	c.Res.Extra["n_cells_deliver"] = nDeliver
